@@ -285,7 +285,13 @@ func checkMain(args []string) int {
 				samples = append(samples, map[string]interface{}{"harness": r.Name, "reach": tag, "model": compactModel(m)})
 			}
 		}
+		seenSite := map[string]bool{}
 		for i, v := range r.Violations {
+			sk := v.Kind + "|" + v.Msg + "|" + v.Pos
+			if seenSite[sk] {
+				continue
+			}
+			seenSite[sk] = true
 			doc := &ReplayDoc{Property: prop, Harness: r.Name, Pkg: r.Pkg, Kind: v.Kind, Msg: v.Msg, Pos: v.Pos, Stack: v.Stack, Model: v.Model}
 			path := filepath.Join(rdir, fmt.Sprintf("%s-%d.json", r.Name, i))
 			b, _ := json.MarshalIndent(doc, "", " ")
